@@ -287,7 +287,12 @@ package hessian
 
 //@ func SetValue
 //@   maypanic reflect assignment of a decoded value whose type does not fit the destination
-//@   assigns @rset
+//@   assigns @rset, @E
+//@   ensures [C14:setvalue-total] true
+
+//@ func setValue
+//@   maypanic reflect assignment of a decoded value whose type does not fit the destination
+//@   assigns @rset, @E
 //@   loop 1 invariant [C14:setvalue-walk] true
 //@   loop 2 invariant [C14:setvalue-walk] true
 //@   ensures [C14:setvalue-total] true
@@ -311,7 +316,13 @@ package hessian
 //@ func ConvertSliceValueType
 //@   maypanic reflect assignment of a decoded value whose type does not fit the destination
 //@   assigns @rset, @E
-//@   loop 1 invariant [C14:convert-index] 0 <= i
+//@   ensures [C14:convert-total] true
+
+//@ func convertSlice
+//@   maypanic reflect assignment of a decoded value whose type does not fit the destination
+//@   assigns @rset, @E
+//@   loop 1 invariant [C14:convert-path] true
+//@   loop 2 invariant [C14:convert-index] 0 <= i
 //@   ensures [C14:convert-total] true
 
 //@ func EnsureRawValue
